@@ -425,6 +425,9 @@ func (vc *VC) obligeClause(env *Env, st *State, kind, name, suffix string, c Cla
 
 
 func isGhostComp(vc *VC, comp string) bool {
+	if strings.HasPrefix(comp, "ghost:") {
+		return true
+	}
 	for k := range vc.w.ghosts {
 		if strings.HasSuffix(comp, k[strings.LastIndex(k, ".")+1:]) && strings.HasPrefix(comp, k[:strings.LastIndex(k, ".")]) {
 			return true
